@@ -265,13 +265,23 @@ fn dur_of(ms: u64) -> Duration {
     }
 }
 
+/// the duration in milliseconds as the model sees it: both "unbounded" encodings are more than any u64 count
+/// of milliseconds, i.e. u64::MAX once saturated
+fn eff_ms(ms: u64) -> u64 {
+    if ms >= u64::MAX - 1 {
+        u64::MAX
+    } else {
+        ms
+    }
+}
+
 fn run_record(t: &WinTrace, obs: &mut Obs) -> Result<(), Violation> {
     let site = "TimeWindow::record";
-    let d = t.duration_ms;
-    if d >= u64::MAX - 1 {
+    let d = eff_ms(t.duration_ms);
+    if d == u64::MAX {
         obs.count("probe.duration_that_means_unbounded");
     }
-    let mut w = TimeWindow::new(WindowType::Sliding, dur_of(d), 0, t.cap);
+    let mut w = TimeWindow::new(WindowType::Sliding, dur_of(t.duration_ms), 0, t.cap);
     let mut prev: Vec<usize> = Vec::new();
     let mut max_seen: Option<u64> = None;
     for (i, e) in t.events.iter().enumerate() {
@@ -362,8 +372,8 @@ fn run_record(t: &WinTrace, obs: &mut Obs) -> Result<(), Violation> {
 
 fn run_manager(t: &WinTrace, obs: &mut Obs) -> Result<(), Violation> {
     let site = "WindowManager::process_event";
-    let d = t.duration_ms;
-    let mut m = WindowManager::new(WindowType::Tumbling, Duration::from_millis(d), t.cap, t.max_windows);
+    let d = eff_ms(t.duration_ms);
+    let mut m = WindowManager::new(WindowType::Tumbling, dur_of(t.duration_ms), t.cap, t.max_windows);
     let mut offered: Vec<usize> = Vec::new();
     let mut max_seen: Option<u64> = None;
     for (i, e) in t.events.iter().enumerate() {
@@ -399,13 +409,13 @@ fn run_manager(t: &WinTrace, obs: &mut Obs) -> Result<(), Violation> {
             ));
         }
         let h = holders[0];
-        if h.start_time != aligned(ts, d) || h.end_time != aligned(ts, d) + d {
+        if h.start_time != aligned(ts, d) || h.end_time != aligned(ts, d).saturating_add(d) {
             return Err(Violation::new(
                 PROP,
                 "tumbling.one-window",
                 site,
                 "window-not-the-aligned-interval",
-                format!("e{i} ts {ts} placed in window [{}, {}), aligned interval is [{}, {})", h.start_time, h.end_time, aligned(ts, d), aligned(ts, d) + d),
+                format!("e{i} ts {ts} placed in window [{}, {}), aligned interval is [{}, {})", h.start_time, h.end_time, aligned(ts, d), aligned(ts, d).saturating_add(d)),
                 i,
             ));
         }
@@ -413,7 +423,7 @@ fn run_manager(t: &WinTrace, obs: &mut Obs) -> Result<(), Violation> {
         let mut seen: BTreeSet<usize> = BTreeSet::new();
         let mut starts: BTreeSet<u64> = BTreeSet::new();
         for w in wins {
-            if w.start_time % d != 0 || w.end_time != w.start_time + d || !starts.insert(w.start_time) {
+            if w.start_time % d != 0 || w.end_time != w.start_time.saturating_add(d) || !starts.insert(w.start_time) {
                 return Err(Violation::new(PROP, "tumbling.span", site, "window-span-not-aligned-or-duplicated", format!("active window [{}, {}) with window size {d}", w.start_time, w.end_time), i));
             }
             let members: Vec<usize> = w.events().iter().map(|x| idx_of(&x.id)).collect();
@@ -447,11 +457,11 @@ fn run_manager(t: &WinTrace, obs: &mut Obs) -> Result<(), Violation> {
 
 fn run_batch_stream(t: &WinTrace, obs: &mut Obs) -> Result<(), Violation> {
     let site = "WindowedStream::new";
-    let d = t.duration_ms;
+    let d = eff_ms(t.duration_ms);
     let events: Vec<StreamEvent> = t.events.iter().enumerate().map(|(i, e)| mk_event(i, e.ts as u64, e)).collect();
     let cfg = || WindowConfig {
         window_type: WindowType::Tumbling,
-        duration: Duration::from_millis(d),
+        duration: dur_of(t.duration_ms),
         max_events: t.cap,
     };
     let ws = WindowedStream::new(events.clone(), cfg());
@@ -464,7 +474,7 @@ fn run_batch_stream(t: &WinTrace, obs: &mut Obs) -> Result<(), Violation> {
     let mut seen: BTreeSet<usize> = BTreeSet::new();
     let mut starts: BTreeSet<u64> = BTreeSet::new();
     for w in ws.windows() {
-        if w.start_time % d != 0 || w.end_time != w.start_time + d || !starts.insert(w.start_time) {
+        if w.start_time % d != 0 || w.end_time != w.start_time.saturating_add(d) || !starts.insert(w.start_time) {
             return Err(Violation::new(PROP, "tumbling.span", site, "window-span-not-aligned-or-duplicated", format!("window [{}, {}) with size {d}", w.start_time, w.end_time), 0));
         }
         let members: Vec<usize> = w.events().iter().map(|x| idx_of(&x.id)).collect();
@@ -561,7 +571,7 @@ fn run_batch_stream(t: &WinTrace, obs: &mut Obs) -> Result<(), Violation> {
 fn in_window(kind: Kind, ts: u64, now: u64, d: u64) -> bool {
     match kind {
         Kind::AlphaSliding => ts >= now.saturating_sub(d) && ts <= now,
-        Kind::AlphaTumbling => ts >= aligned(now, d) && ts < aligned(now, d) + d,
+        Kind::AlphaTumbling => ts >= aligned(now, d) && ts < aligned(now, d).saturating_add(d),
         _ => true,
     }
 }
@@ -572,11 +582,11 @@ fn run_alpha(t: &WinTrace, obs: &mut Obs) -> Result<(), Violation> {
         Kind::AlphaTumbling => "StreamAlphaNode(tumbling)",
         _ => "StreamAlphaNode(no window)",
     };
-    let d = t.duration_ms;
+    let d = eff_ms(t.duration_ms);
     clock::install(CLOCK_BASE_MS);
     clock::set_tick_pattern(t.tick_pattern.clone());
     let spec = match t.kind {
-        Kind::AlphaSliding => Some(WindowSpec { duration: dur_of(d), window_type: WindowType::Sliding }),
+        Kind::AlphaSliding => Some(WindowSpec { duration: dur_of(t.duration_ms), window_type: WindowType::Sliding }),
         Kind::AlphaTumbling => Some(WindowSpec { duration: Duration::from_millis(d), window_type: WindowType::Tumbling }),
         _ => None,
     };
@@ -627,7 +637,7 @@ fn run_alpha(t: &WinTrace, obs: &mut Obs) -> Result<(), Violation> {
             ));
         }
         if matches_filter && t.kind != Kind::AlphaNoWindow {
-            if (t.kind == Kind::AlphaSliding && (ts == tmin.saturating_sub(d) || ts == tmax)) || (t.kind == Kind::AlphaTumbling && (ts == aligned(tmin, d) || ts + 1 == aligned(tmin, d) + d)) {
+            if (t.kind == Kind::AlphaSliding && (ts == tmin.saturating_sub(d) || ts == tmax)) || (t.kind == Kind::AlphaTumbling && (ts == aligned(tmin, d) || ts + 1 == aligned(tmin, d).saturating_add(d))) {
                 obs.count("probe.stamp_exactly_on_window_boundary");
             }
         }
@@ -867,7 +877,7 @@ impl World for WindowWorld {
             }
         }
         // one continuously sliding window in 40 has a duration that means "no bound"
-        let duration_ms = if matches!(kind, Kind::Record | Kind::AlphaSliding) && rng.chance(1, 40) { *rng.pick(&[u64::MAX, u64::MAX - 1]) } else { duration_ms };
+        let duration_ms = if matches!(kind, Kind::Record | Kind::AlphaSliding | Kind::Manager | Kind::Batch) && rng.chance(1, 40) { *rng.pick(&[u64::MAX, u64::MAX - 1]) } else { duration_ms };
         WinTrace { hash_seed, kind, duration_ms, cap, max_windows, events, tick_pattern }
     }
 
